@@ -249,6 +249,29 @@ def F3(ctx):
                 if s_["k"] == "=" and s_["lhs"]["p"] and "deref_mut" in canon(body2.expr_of_place(s_["lhs"])) and "self.waker" in canon(body2.expr_of_place(s_["lhs"])) \
                         and "Some" in canon(body2.expr_of_rvalue(s_["rv"])) and not body2.blocks[b]["cleanup"]:
                     stores.append(b)
+        # the slot filled through an Option method: `replace` / `insert` overwrite whatever was there (a store); `get_or_insert*`
+        # keeps an occupant (a store that depends on the slot's previous content)
+        keeps = []
+        for (b, t, c) in prog.sites(inst2) if inst2 is not None else []:
+            if body2.blocks[b]["cleanup"] or is_noise(t):
+                continue
+            cp = callee_path(t)
+            if "option::Option" not in cp or not t["args"]:
+                continue
+            recv = canon(body2.expr_of_operand(t["args"][0]))
+            if "self.waker" not in recv:
+                continue
+            m_ = cp.split("::")[-1]
+            if m_ in ("replace", "insert"):
+                stores.append(b)
+            elif m_.startswith("get_or_insert") or m_ in ("or", "or_else", "xor", "get_or_default"):
+                keeps.append(b)
+        if keeps:
+            writers += 1
+            ctx.bad("F3", k, "%s fills the waker slot with `Option::%s`, which keeps a waker that is already there: a stale waker of an "
+                    "earlier task stays registered and wake() does not reach the most recently registered one" %
+                    (k, callee_path(body2.term(keeps[0])).split("::")[-1]), site_str(prog, k, keeps[0]), detail="store")
+            continue
         if not stores:
             continue
         writers += 1
@@ -264,6 +287,9 @@ def F3(ctx):
             ctx.bad("F3", k, "%s stores the waker only depending on the slot's previous content (%s) / without the modelled lock (%s): a stale "
                     "waker of an earlier task stays registered and wake() does not reach the most recently registered one" % (k, cond[:1], locked),
                     site_str(prog, k, stores[0]), detail="store")
+    if writers < 1:
+        ctx.bad("F3", AW + "register", "no function of AtomicWaker stores a waker into the slot any more (the rule found no assignment, "
+                "`replace` or `insert` on `self.waker`): registration has no effect or uses a form the rule cannot judge", None, detail="no-store")
     # register_by_ref registers a clone of the waker
     fk = AW + "register_by_ref"
     fn = need_fn(ctx, "F3", fk)
